@@ -493,7 +493,10 @@ def realize(case):
                 mu = np.array([g["muK"]] + list(g["mu"]), dtype=float)
                 lnprior = float(np.sum(-0.5 * (np.log(2 * np.pi * lam) + (x - mu) ** 2 / lam)))
                 lnpost = float(lnN(x, a, A))
-                ev["bayesok"] = bool(abs((llm - lnlike_phys) - (lnprior - lnpost)) <= 1e-6 * max(1.0, abs(llm)))
+                # the identity is a difference of terms that can be 1e7 times larger than the result (sentinel linear parameters far
+                # from the data): round-off scales with the largest term
+                btol = 1e-6 * max(1.0, abs(llm)) + 1e-10 * max(abs(llm), abs(lnlike_phys), abs(lnprior), abs(lnpost))
+                ev["bayesok"] = bool(abs((llm - lnlike_phys) - (lnprior - lnpost)) <= btol)
                 ev["bayes_terms"] = [llm, lnlike_phys, lnprior, lnpost]
                 # the same identity with the SPECIFICATION's posterior (for attributing a failure to a draw-path deviation)
                 Mx = np.zeros((N, L))
@@ -508,7 +511,7 @@ def realize(case):
                 Ai_s = np.diag(1.0 / lam) + Mx.T @ np.diag(1.0 / var) @ Mx
                 a_s = np.linalg.solve(Ai_s, mu / lam + Mx.T @ (y / var))
                 lnpost_s = float(lnN(x, a_s, np.linalg.inv(Ai_s)))
-                ev["bayesspecok"] = bool(abs((llm - lnlike_phys) - (lnprior - lnpost_s)) <= 1e-6 * max(1.0, abs(llm)))
+                ev["bayesspecok"] = bool(abs((llm - lnlike_phys) - (lnprior - lnpost_s)) <= btol)
         except Exception as ex:
             ev["exc"] = "%s: %s" % (type(ex).__name__, str(ex)[:160])
         events.append(ev)
